@@ -293,6 +293,9 @@ func (e *Evaluator) compute(fr *frame, v ssa.Value) V {
 			if _, ok := x.X.(*ssa.Alloc); ok {
 				return unkV
 			}
+			if g, ok := x.X.(*ssa.Global); ok {
+				return symV("global:" + g.Name())
+			}
 		case token.NOT:
 			if b, ok := e.val(fr, x.X).Bool(); ok {
 				return bV(!b)
